@@ -35,8 +35,8 @@ theorem products_spec_strict (n : Nat) (xrow : Nat → Row α) (ws : Nat → Lis
     mergeMany_spec_strict (ws i) (xrow i) (hx i) (hw i) r hf⟩
 
 /-- `allow_incomplete = false` and some merged row of B has a column that row `i` of X lacks ⇒ abort -/
-theorem products_reported (n : Nat) (xrow : Nat → Row α) (ts : Nat → List ((α → α → α) × Row α))
-    (i : Nat) (hi : i < n) (t : (α → α → α) × Row α) (ht : t ∈ ts i) (c : Nat) (hc : c ∈ rowCols t.2)
+theorem products_reported {β γ : Type} (n : Nat) (xrow : Nat → Row β) (ts : Nat → List ((β → γ → β) × Row γ))
+    (i : Nat) (hi : i < n) (t : (β → γ → β) × Row γ) (ht : t ∈ ts i) (c : Nat) (hc : c ∈ rowCols t.2)
     (hmiss : c ∉ rowCols (xrow i)) :
     ∃ e, forRows (fun i => mergeMany false (xrow i) (ts i)) (List.range n) = .error e := by
   cases h1 : mergeMany false (xrow i) (ts i) with
@@ -44,13 +44,13 @@ theorem products_reported (n : Nat) (xrow : Nat → Row α) (ts : Nat → List (
   | error e => exact forRows_error _ _ i (List.mem_range.mpr hi) e h1
 
 /-- `allow_incomplete = true` never aborts (on matching dimensions) -/
-theorem products_allow_ok (n : Nat) (xrow : Nat → Row α) (ts : Nat → List ((α → α → α) × Row α)) :
+theorem products_allow_ok {β γ : Type} (n : Nat) (xrow : Nat → Row β) (ts : Nat → List ((β → γ → β) × Row γ)) :
     ∃ R, forRows (fun i => mergeMany true (xrow i) (ts i)) (List.range n) = .ok R :=
   forRows_all_ok _ _ (fun i _ => mergeMany_allow_ok (ts i) (xrow i))
 
 /-- complete pattern ⇒ never aborts, whatever the flag -/
-theorem mergeMany_complete_ok (allow : Bool) (ts : List ((α → α → α) × Row α)) :
-    ∀ xs : Row α, SortedCols xs → (∀ t ∈ ts, SortedCols t.2) → (∀ t ∈ ts, ∀ c ∈ rowCols t.2, c ∈ rowCols xs) →
+theorem mergeMany_complete_ok {β γ : Type} (allow : Bool) (ts : List ((β → γ → β) × Row γ)) :
+    ∀ xs : Row β, SortedCols xs → (∀ t ∈ ts, SortedCols t.2) → (∀ t ∈ ts, ∀ c ∈ rowCols t.2, c ∈ rowCols xs) →
       ∃ r, mergeMany allow xs ts = .ok r := by
   induction ts with
   | nil => intro xs _ _ _; exact ⟨xs, rfl⟩
@@ -63,11 +63,23 @@ theorem mergeMany_complete_ok (allow : Bool) (ts : List ((α → α → α) × R
       (fun t ht c hcc => by rw [hc]; exact hsub t (List.mem_cons_of_mem _ ht) c hcc)
     exact ⟨r, by simp only [mergeMany, h1]; exact h⟩
 
-theorem products_complete_ok (allow : Bool) (n : Nat) (xrow : Nat → Row α) (ts : Nat → List ((α → α → α) × Row α))
+theorem products_complete_ok {β γ : Type} (allow : Bool) (n : Nat) (xrow : Nat → Row β)
+    (ts : Nat → List ((β → γ → β) × Row γ))
     (hx : ∀ i, SortedCols (xrow i)) (hs : ∀ i, ∀ t ∈ ts i, SortedCols t.2)
     (hsub : ∀ i, i < n → ∀ t ∈ ts i, ∀ c ∈ rowCols t.2, c ∈ rowCols (xrow i)) :
     ∃ R, forRows (fun i => mergeMany allow (xrow i) (ts i)) (List.range n) = .ok R :=
   forRows_all_ok _ _ (fun i hi => mergeMany_complete_ok allow (ts i) (xrow i) (hx i) (hs i) (hsub i (List.mem_range.mp hi)))
+
+/-- all rows of X, algebra-free: every returned row is the entry-wise image of the old row under the sequence of updates -/
+theorem products_eq_map {β γ : Type} (allow : Bool) (n : Nat) (xrow : Nat → Row β) (ts : Nat → List ((β → γ → β) × Row γ))
+    (hx : ∀ i, SortedCols (xrow i)) (hs : ∀ i, ∀ t ∈ ts i, SortedCols t.2) (R : List (Row β))
+    (h : forRows (fun i => mergeMany allow (xrow i) (ts i)) (List.range n) = .ok R) :
+    R.length = n ∧ ∀ i, i < n → R[i]? = some ((xrow i).map (applyMany (ts i))) := by
+  obtain ⟨hl, hk⟩ := forRows_ok _ _ R h
+  refine ⟨by simpa using hl, fun i hi => ?_⟩
+  obtain ⟨r, hr, hf⟩ := hk i (by simpa using hi)
+  simp only [List.getElem_range] at hf
+  rw [hr, mergeMany_eq_map allow (ts i) (xrow i) (hx i) (hs i) r hf]
 
 /-- weights of the three CSR products -/
 def wMM (alpha : α) (D B : Csr α) (i : Nat) : List (α × Row α) :=
